@@ -504,6 +504,12 @@ func (w *World) Queries(rng *rand.Rand, max int) []Query {
 		add(join("b", join("a", o)))
 		add(join("x", join("a*b", o)))
 		add(join("zz", join("\xc3\xa9", o)))
+		// labels whose only wildcard-unsafe byte is the last one, and one-byte unsafe labels (also the literal "*")
+		add(join("bad!", o))
+		add(join("q", join("x!", o)))
+		add(join("!", o))
+		add(join("*", o))
+		add(join("a", join("*", o)))
 	}
 	for _, z := range w.Zones {
 		add(join("nx", z))
